@@ -195,8 +195,23 @@ func genAggRule(t *rapid.T, schema []PredInfo, head string, nKeys, nRed int, lab
 		return Rule{Head: h, Body: body, Do: do}, true
 	}
 	nPos := rapid.SampledFrom([]int{1, 1, 1, 1, 2, 2, 3}).Draw(t, "aggPos")
+	usedBig := false
 	for i := 0; i < nPos; i++ {
 		p := rapid.SampledFrom(schema).Draw(t, "aggPred")
+		if p.Name == "b0" {
+			if usedBig {
+				// the large relation at most once per body (a self-join of 200 rows three times is 8 million solutions)
+				var small []PredInfo
+				for _, q := range schema {
+					if q.Name != "b0" {
+						small = append(small, q)
+					}
+				}
+				p = rapid.SampledFrom(small).Draw(t, "aggPredSmall")
+			} else {
+				usedBig = true
+			}
+		}
 		if p.Level >= 0 {
 			labels["over-idb"] = true
 		}
